@@ -327,6 +327,18 @@ def run_unit(unit_name, index_tuple=None, with_probes=True, params=None):
         res.status = 'inconclusive'
         res.reason = 'extraction: %s' % e
         res.wall_s = round(time.time() - t0, 2)
+        try:
+            uprops = sorted(Unit(unit_name).props) if params is None else sorted(Unit(unit_name, params).props)
+        except Exception:
+            uprops = []
+        if uprops:
+            # the unit cannot be assembled from the current text (a function or a source anchor is gone): like a rejected file,
+            # every obligation is undecided; the executable twins may still refute the contract with a replayed input, otherwise exit 2
+            res.failed = [{'name': '%s::*::rejected[verifier cannot process the current text of the unit]' % unit_name,
+                           'unit': unit_name, 'fn': '*', 'kind': 'rejected', 'clause': None, 'site': None, 'site_line': None, 'lib_site': None,
+                           'props': uprops, 'message': 'extraction: %s' % e, 'rendered': str(e), 'needs_witness': True}]
+            res.rejected = True
+            res.status = 'failed'
         return res
     os.makedirs(BUILD, exist_ok=True)
     fid = file_id(unit_name)
